@@ -1102,6 +1102,9 @@ func RunC18(t *kernel.Tape, o Opts) *Result {
 		}
 	}
 	probe(res, "goroutines_of_code_under_test", s.Spawned)
+	probe(res, "resumed_after_all_tasks_blocked", s.Resumed)
+	probe(res, "blocking_operations", s.BlockOps)
+	probe(res, "selects_with_drawn_case_order", s.Selects)
 	for i, ops := range programs {
 		if i < ntasks {
 			if pv := s.TaskPanic(i); pv != nil {
